@@ -11,7 +11,7 @@ func init() {
 		Technique: "determinism-source enumeration over the runtime call-graph closure: map-iteration classification, goroutine/select/wall-clock/random/environment call audit",
 		Explanation: "Decides: (1) every `range` over a map in library code is order-insensitive — its body only performs keyed stores, deletes or commutative accumulation, or collects entries into a slice that is sorted before use — or is one of the individually reviewed loops (each with its reason frozen in the checker); a loop that returns, breaks, appends without sorting, sends, schedules or calls per entry is reported; " +
 			"(2) no function in the runtime closure (everything reachable from Tick/Handle/Process/Notify* of library types, within the engine, messaging, modeling, queueing, memory and network packages) starts a goroutine, selects over channels, or calls a wall-clock, random, environment or host-derived-id function (allow-list: the parallel engine); " +
-			"(3) the same for every SaveCheckpoint closure, so that saved bytes cannot depend on them; (4) no entry of the process-global tracing receiver registry outlives the command that minted it (live-release-id, mint-release as in C32): a leaked entry is found by a later run in the same process and shifts every ID drawn after it.",
+			"(3) the same for every SaveCheckpoint closure, so that saved bytes cannot depend on them; (4) no entry of the process-global tracing receiver registry outlives the command that minted it (live-release-id, mint-release as in C32): a leaked entry is found by a later run in the same process and shifts every ID drawn after it. (5) comparator-sound: no ordering function handed to a sort is an unsigned difference (int(a-b) never reports less, the sort is a no-op and map order leaks).",
 		NotDecided:  "determinism of user code and of the Go runtime; equality of whole traces across runs.",
 		Assumptions: []string{"the module call graph (static calls, interface calls resolved over module types, function values) over-approximates runtime reachability"},
 	}, runC03)
@@ -93,5 +93,6 @@ func runC03(c *Ctx) {
 	sv := p.ModCG().Reach(roots, nil)
 	m := nondetRule(c, "save-nondeterminism", sv, func(pp string) bool { return !clientPkg(pp) })
 	receiverReleaseRules(c, 1, 10)
+	comparatorSoundRule(c, "comparator-sound", func(pp string) bool { return !clientPkg(pp) }, 10)
 	c.Check(len(roots) >= 8 && m >= len(roots), "save-nondeterminism", "<closure>", 0, "every SaveCheckpoint closure inspected", "fewer SaveCheckpoint implementations found than confirmed by hand")
 }
